@@ -147,6 +147,16 @@ func hooks(s *simrt.Sim, pooled bool) {
 	if evMax > 0 && want > evMax {
 		want = evMax
 	}
+	if evMax > 0 && len(trigs) > evMax {
+		s.Probe("event-max-trigger-count-exceeded-by-callers")
+	}
+	for i, a := range trigs {
+		for _, b := range trigs[i+1:] {
+			if a.call.inv < b.call.ret && b.call.inv < a.call.ret {
+				s.Probe("concurrent-triggers")
+			}
+		}
+	}
 	if fired != want {
 		s.Fail("max-trigger-count", "event", "event with max=%d: %d Trigger calls, the permanent hook ran %d times, expected %d", evMax, len(trigs), fired, want)
 	}
@@ -163,6 +173,18 @@ func hooks(s *simrt.Sim, pooled bool) {
 			firedT := len(base.calls[t.arg]) == 1
 			attachedBefore := h.attach.before(t.call)
 			notUnhooked := h.unhook.inv == 0 || h.unhook.inv > t.call.ret
+			if h.attach.inv < t.call.ret && h.attach.ret > t.call.inv {
+				s.Probe("hook-attached-during-trigger")
+			}
+			if h.unhook.inv != 0 && h.unhook.inv < t.call.ret && h.unhook.ret > t.call.inv {
+				s.Probe("unhook-during-trigger")
+			}
+			if n == 1 && h.pooled {
+				s.Probe("pooled-hook-ran")
+				if h.calls[t.arg][0] > t.call.ret {
+					s.Probe("pooled-hook-ran-after-trigger-returned")
+				}
+			}
 			if h.unhook.before(t.call) && n > 0 {
 				s.Fail("unhooked", "called-after-unhook", "hook %s called for Trigger(%d) invoked at step %d although Unhook had returned at step %d", h.name, t.arg, t.call.inv, h.unhook.ret)
 			}
@@ -181,6 +203,9 @@ func hooks(s *simrt.Sim, pooled bool) {
 			}
 		}
 		if h.max > 0 {
+			if certain > h.max {
+				s.Probe("hook-max-trigger-count-exceeded-by-triggers")
+			}
 			if h.total > h.max {
 				s.Fail("max-trigger-count", "hook-exceeded", "hook %s with max=%d ran %d times", h.name, h.max, h.total)
 			}
@@ -294,11 +319,19 @@ func link(s *simrt.Sim) {
 			}
 		}
 		if ambiguous {
+			s.Probe("linkto-overlaps-trigger")
 			continue
 		}
 		want := 0
 		if cur != nil && cur.target == t.target {
 			want = 1
+		}
+		if want == 0 {
+			for _, l := range links {
+				if cur != nil && l != cur && l.target == t.target && l.call.before(cur.call) {
+					s.Probe("trigger-of-former-target")
+				}
+			}
 		}
 		if n != want {
 			kind := "missed"
@@ -385,6 +418,9 @@ func promiseH(s *simrt.Sim) {
 			first = t
 		}
 	}
+	if len(trigs) > 1 {
+		s.Probe("several-trigger-calls")
+	}
 	if len(trigs) > 0 && winners != 1 {
 		s.Fail("promise", "trigger-winner", "%d Trigger calls, %d reported that they triggered the event", len(trigs), winners)
 	}
@@ -402,6 +438,14 @@ func promiseH(s *simrt.Sim) {
 				s.Fail("promise", "callback-without-trigger", "callback %s ran although Trigger was never called", sb.name)
 			}
 			continue
+		}
+		for _, t := range trigs {
+			switch {
+			case sb.reg.inv < t.call.ret && sb.reg.ret > t.call.inv:
+				s.Probe("callback-registered-during-trigger")
+			case t.call.before(sb.reg):
+				s.Probe("callback-registered-after-trigger")
+			}
 		}
 		unsubBefore := false // unsubscribe returned before any Trigger was invoked
 		unsubNever := sb.unsub.inv == 0
@@ -504,9 +548,24 @@ func notifier(s *simrt.Sim) {
 	left := s.Quiesce()
 	hx.Stuck(s, "deadlock", left, nil)
 	for _, l := range lss {
+		for _, o := range lss {
+			if o != l && o.val == l.val && o.create.inv < l.create.inv && (o.dereg.inv == 0 || o.dereg.inv > l.create.inv) {
+				s.Probe("two-listeners-of-one-value-alive")
+			}
+			if o != l && o.val == l.val && o.dereg.inv != 0 && o.dereg.ret < l.create.inv {
+				s.Probe("listener-created-after-deregistration-of-same-value")
+			}
+		}
+		if l.waited && l.wait.ret != 0 && l.err != nil {
+			s.Probe("wait-ended-by-context")
+		}
+		if l.waited && l.dereg.inv != 0 && l.dereg.ret < l.wait.inv {
+			s.Probe("wait-after-deregister")
+		}
 		if !l.waited || l.wait.ret == 0 || l.err != nil {
 			continue
 		}
+		s.Probe("wait-success")
 		// Wait reported success: some Notify(val) must lie (at least partly) after the creation and before the end of the
 		// listener's registration (explicit Deregister, else the Wait's own return)
 		end := l.wait.ret
